@@ -218,8 +218,7 @@ def inst_fxp_list(H, l, f, func, flags):
         elif func == 'sum_start': g = [(func, vz[0] == xv[0] + xv[1] + yv[0])]
         elif func == 'sum_start_float': g = [(func, vz[0] == xv[0] + xv[1] + one // 2)]
         elif func == 'sum_start_int': g = [(func, vz[0] == xv[0] + xv[1] + 3 * one)]
-        elif func == 'prod_start':
-            g = [(func, z3.Or(*[vz[0] == fl(fl(xv[0] * yv[0]) * xv[1]) + d for d in (0, 1, 2)] + [vz[0] == fl((fl(xv[0] * yv[0]) + 1) * xv[1]) + d for d in (0, 1)]))]
+        elif func == 'prod_start': g = []   # value of a product chain is the 'prod' instance; here only the integrality goals below
         elif func in ('in_prod', 'matrix_prod'):
             num = xv[0] * yv[0] + xv[1] * yv[1]
             g = [(func, near(vz[0], num))]
